@@ -426,16 +426,17 @@ def effect(g, op, attrs=None):
         return fin([g1], seq, ref, unj, note='dups' if unj else '')
 
     if kind == 'append':
+        # "append puts the task last" - also for a task that is already listed (it moves to the end)
         own, t = op[1], op[2]
         ref = _ref(own)
         if ref[0] == 't':
-            return effect(g, ('set_parent', t, own), attrs)
+            e = effect(g, ('set_parent', t, own), attrs)
+            if e.cls in (LEGAL, CLASH) or (e.cls == UNJUDGED):
+                e.cands = e.cands[:1]
+            return e
         g1 = g.copy()
         g1.attach(t, ref)
-        cands = [g1]
-        if g.container(t) == ref:
-            cands.append(g.copy())
-        return fin(cands, [t], ref, note='append-root')
+        return fin([g1], [t], ref, note='append-root')
 
     if kind == 'insert':
         own, t, i = op[1], op[2], op[3]
